@@ -70,6 +70,10 @@ ENTRY = {
             'dd.bdd.BDD.cofactor', 'dd.bdd.BDD.swap',
             'dd.bdd.BDD.undeclare_vars', 'dd.bdd.BDD.add_var',
             'dd._parser._Translator.parse', 'dd._copy.load_json'],
+    # the Python code that the C wrappers run through
+    'C19': ['dd._utils.assert_operator_arity', 'dd._copy.load_json',
+            'dd._copy.dump_json', 'dd._copy.copy_bdd',
+            'dd._parser.add_expr'],
     'C18': ['dd.autoref.Function.low', 'dd.autoref.Function.high',
             'dd.autoref.Function.var', 'dd.autoref.Function.level',
             'dd.autoref.Function.negated', 'dd.autoref.BDD.succ',
@@ -143,6 +147,9 @@ for _pid, _over in _quantifiers().items():
 # properties that quantify over histories ONLY speak about every operation
 ALL_OPERATIONS = {pid for pid, over in _quantifiers().items()
                   if over == {'histories'}}
+# C09 says so itself: "every public operation of dd.autoref (and of dd.bdd
+# when its operands are referenced)"
+ALL_OPERATIONS.add('C09')
 
 
 def has(P, pid, *quals):
